@@ -491,4 +491,5 @@ func main() {
 
 	w.WriteString("end Gv.Gen\n")
 	writeIfChanged(filepath.Join(out, "Tables.lean"), w.String())
+	emitFmtFacts(repo, out)
 }
